@@ -1095,7 +1095,7 @@ Vattach(HFILEID     f,    /* IN: file handle */
         HGOTO_ERROR(DFE_BADACC, FAIL);
 
     /* convert file id to file record and check for validity */
-    file_rec = HAatom_object(f);
+    file_rec = HIfile_rec(f);
     if (BADFREC(file_rec))
         HGOTO_ERROR(DFE_ARGS, FAIL);
 
@@ -2781,7 +2781,7 @@ Vdelete(int32 f, /* IN: file handle */
         HGOTO_ERROR(DFE_ARGS, FAIL);
 
     /* convert file id to file record and check for validity */
-    file_rec = HAatom_object(f);
+    file_rec = HIfile_rec(f);
     if (BADFREC(file_rec))
         HGOTO_ERROR(DFE_ARGS, FAIL);
 
